@@ -335,11 +335,11 @@ def r4_reverse(c, rid="C01.R4"):
 
 
 # --------------------------------------------------------------------------- R5
-def r5_disorder(c):
+def r5_disorder(c, rid="C01.R5"):
     """an added row inside an ordered block puts every following row 'in disorder' (they must be re-created
     after it, because a device appends new lines at the end of the block)"""
     repo = c.repo
-    c.rule("C01.R5", "base_diff: the branch that labels a row ADDED also raises the disorder flag read by the MOVED test, so that every following row of "
+    c.rule(rid, "base_diff: the branch that labels a row ADDED also raises the disorder flag read by the MOVED test, so that every following row of "
                      "the block is re-created after the added one (a device appends new rows at the end of a block; replacing a row in the middle of an "
                      "%ordered block otherwise leaves the tail in the old position)")
     m = repo.module(COMMON)
@@ -349,14 +349,14 @@ def r5_disorder(c):
         if isinstance(st, ast.For) and norm(st.iter) in ("enumerate(new)", "new"):
             loop = st
     if loop is None:
-        raise AnchorError("C01.R5: loop over new not found in base_diff")
+        raise AnchorError(f"{rid}: loop over new not found in base_diff")
     from sa import symexec
     # the disorder flag: a local set to True inside the loop and initialised False before it
     flags = {n.targets[0].id for n in walk_no_nested(loop) if isinstance(n, ast.Assign) and isinstance(n.targets[0], ast.Name) and isinstance(n.value, ast.Constant) and n.value.value is True}
     flags = {f for f in flags if any(isinstance(n, ast.Assign) and isinstance(n.targets[0], ast.Name) and n.targets[0].id == f and isinstance(n.value, ast.Constant)
                                      and n.value.value is False and not any(x is n for x in ast.walk(loop)) for n in walk_no_nested(fn))}
     if not flags:
-        raise AnchorError("C01.R5: no boolean disorder flag (False before the loop over new, True inside it) found in base_diff")
+        raise AnchorError(f"{rid}: no boolean disorder flag (False before the loop over new, True inside it) found in base_diff")
     flag = sorted(flags)[0]
     # which local carries the op of the item built in this iteration
     items = [x for x in calls_in(loop) if call_name(x) == "DiffItem"]
@@ -366,9 +366,10 @@ def r5_disorder(c):
         if isinstance(e, ast.Name):
             opvar = e.id
     if opvar is None:
-        raise AnchorError("C01.R5: ADDED assignment / MOVED branch not found in base_diff")
+        raise AnchorError(f"{rid}: ADDED assignment / MOVED branch not found in base_diff")
     n_added = n_moved = 0
     bad = None
+    bad_moved = None
     for p_ in symexec.paths(loop.body):
         v = p_.env.get(opvar)
         if v is None:
@@ -385,23 +386,30 @@ def r5_disorder(c):
         raised = isinstance(p_.env.get(flag), ast.Constant) and p_.env[flag].value is True
         if any(op_const(a_) == "MOVED" for a_ in alts):
             n_moved += 1
+            known_set = any(pol and isinstance(cnd, ast.Name) and cnd.id == flag for cnd, pol in p_.conds)      # the path is taken *because* the flag is already up
+            if not raised and not known_set:
+                bad_moved = p_
         if any(op_const(a_) == "ADDED" for a_ in alts):
             n_added += 1
             if not raised:
                 bad = p_
     if not n_added or not n_moved:
-        raise AnchorError("C01.R5: ADDED assignment / MOVED branch not found in base_diff")
+        raise AnchorError(f"{rid}: ADDED assignment / MOVED branch not found in base_diff")
     at = repo.loc(m, loop)
-    c.check("C01.R5", bad is None, at, "base_diff/added-raises-disorder",
+    c.check(rid, bad is None, at, "base_diff/added-raises-disorder",
             f"the ADDED branch does not set `{flag} = True`: rows after a row replaced in place keep their op and are not re-created behind the new row",
             key_text="added-disorder")
+    # the flag is sticky: a row found out of place puts every later row out of place too (their absolute index may coincide by accident: [a,b,c] -> [c,b,a] keeps b at index 1)
+    c.check(rid, bad_moved is None, at, "base_diff/moved-raises-disorder",
+            f"a row labelled MOVED because its index changed does not set `{flag} = True`: rows between two exchanged rows keep their index, stay UNCHANGED and are stripped, so "
+            "the patch re-creates only part of the block and the order on the device differs from the target", key_text="moved-disorder")
     # the MOVED test reads the flag
     reads = any(isinstance(x, ast.Name) and x.id == flag for n in walk_no_nested(loop) if isinstance(n, (ast.If, ast.IfExp)) for x in ast.walk(n.test))
-    c.check("C01.R5", reads, at, "base_diff/disorder-read", f"`{flag}` is never read by the test that labels rows MOVED", key_text="disorder-read")
+    c.check(rid, reads, at, "base_diff/disorder-read", f"`{flag}` is never read by the test that labels rows MOVED", key_text="disorder-read")
     # the flag is initialised False before the loop and never reset inside it
     resets = [n for n in walk_no_nested(loop) if isinstance(n, ast.Assign) and isinstance(n.targets[0], ast.Name) and n.targets[0].id == flag
               and isinstance(n.value, ast.Constant) and n.value.value is False]
-    c.check("C01.R5", not resets, repo.loc(m, resets[0] if resets else loop), "base_diff/disorder-monotone", f"`{flag}` is reset inside the loop", key_text="disorder-reset")
+    c.check(rid, not resets, repo.loc(m, resets[0] if resets else loop), "base_diff/disorder-monotone", f"`{flag}` is reset inside the loop", key_text="disorder-reset")
 
 
 # --------------------------------------------------------------------------- R6
